@@ -30,6 +30,9 @@ class Module:
         self.classes = {}      # name -> ClassInfo
         self.globals = set()   # other module-level names
         self.parent = {}
+
+    def build_parents(self):
+        self.parent = {}
         for node in ast.walk(self.tree):
             for child in ast.iter_child_nodes(node):
                 self.parent[child] = node
@@ -168,6 +171,14 @@ class Repo:
             self.modules[name] = Module(name, rel, src)
         if len(self.modules) < 12:
             raise AnalysisError(f"only {len(self.modules)} modules parsed (expected >= 12)")
+        # top-level imports are needed by the normaliser to resolve helper calls
+        for mod in self.modules.values():
+            for node in mod.tree.body:
+                self._index_import(node, mod.imports)
+        from . import canon
+        self.canon_log = canon.canonicalise(self.modules)
+        for mod in self.modules.values():
+            mod.build_parents()
 
     def _index(self):
         for mod in self.modules.values():
